@@ -69,6 +69,13 @@ func echoInputScope() *schema.ScopeSchema {
 			"ok": dv("OK"), "err": dv("Error output"), "undeclared": dv("Undeclared output"), "badout": dv("Bad output"), "panic": dv("Panic"), "gated": dv("Gated"),
 			"badpanic": dv("Panic with a value that is not valid UTF-8"), "badundeclared": dv("Undeclared output ID that is not valid UTF-8")}), `"ok"`),
 		"tags": prop(schema.NewListSchema(schema.NewStringSchema(nil, schema.IntPointer(16), nil), nil, schema.IntPointer(8)), false),
+		// a one-of with integer keys whose discriminator is not a field of the members: over ATP the key arrives as
+		// whatever integer type the CBOR decoder picks
+		"choice": prop(schema.NewOneOfIntSchema[any](map[int64]schema.Object{
+			1:  schema.NewObjectSchema("ChoiceA", map[string]*schema.PropertySchema{"x": prop(schema.NewIntSchema(nil, nil, nil), false)}),
+			2:  schema.NewObjectSchema("ChoiceB", map[string]*schema.PropertySchema{"y": prop(schema.NewStringSchema(nil, nil, nil), false)}),
+			-3: schema.NewObjectSchema("ChoiceC", map[string]*schema.PropertySchema{}),
+		}, "kind", false), false),
 	}))
 }
 
